@@ -172,10 +172,10 @@ func (p *service) processIncoming(msg message.Message) error {
 		p.processAcked(p.sess.Pingack)
 
 	case *message.DisconnectMessage:
-		// For DISCONNECT message, we should quit
-		if p.cmsg != nil {
-			p.cmsg.SetWillFlag(false)
-		}
+		// For DISCONNECT message, we should quit. The will of this connection is
+		// dropped; the CONNECT message is left alone, it is still the one stored
+		// in the session and a successor's handshake may be reading it.
+		p.will = nil
 		return errDisconnect
 
 	default:
